@@ -615,6 +615,7 @@ func monitorStream(which string) StreamMonitor {
 					}
 					if m.Active != na {
 						viol("C12", "active-count", fmt.Sprintf("op %d: active-stream count %d, assigned vBuckets not yet finally ended %d", i, m.Active, na), i)
+						viol("C16", "active-gauge", fmt.Sprintf("op %d: the active-stream gauge shows %d, assigned vBuckets not yet finally ended: %d", i, m.Active, na), i)
 					}
 					if m.Rebal != s.rebalances {
 						viol("C16", "rebalance-count", fmt.Sprintf("op %d: rebalance count %d, completed reopens %d", i, m.Rebal, s.rebalances), i)
